@@ -175,6 +175,7 @@ package interp
 // file's own `yaegi:tags` take no part in deciding the file — and a file that is rejected (or does not
 // parse) adds nothing to the context; only an accepted file contributes its yaegi:tags.
 //@ pred sameTags(ctx): ctx.BuildTags == old(ctx.BuildTags) && forall(k, 0, len(ctx.BuildTags), ctx.BuildTags[k] == old(ctx.BuildTags[k]))
+//@ pred tagSet(ctx, t): exists(q, 0, len(ctx.BuildTags), ctx.BuildTags[q] == t)
 //@ func setYaegiTags(ctx, comments)
 //@   props C17
 //@   opt safety = off
@@ -183,6 +184,11 @@ package interp
 //@   opt opaque-havoc = none
 //@   requires [assume] ctx != nil
 //@   ensures other-context-fields-kept: ctx.GOOS == old(ctx.GOOS) && ctx.GOARCH == old(ctx.GOARCH) && ctx.Compiler == old(ctx.Compiler) && ctx.CgoEnabled == old(ctx.CgoEnabled) && ctx.ToolTags == old(ctx.ToolTags) && ctx.ReleaseTags == old(ctx.ReleaseTags)
+//@   -- EVERY tag of a yaegi:tags line is set afterwards, whether or not an earlier one already was
+//@   loop 3 index k
+//@   step [next] tag-k-is-set: tagSet(ctx, tags[k]) || contains(ctx.BuildTags, tags[k])
+//@   step [next] tags-already-set-are-kept: len(ctx.BuildTags) >= old(len(ctx.BuildTags)) && forall(q, 0, old(len(ctx.BuildTags)), ctx.BuildTags[q] == old(ctx.BuildTags[q]))
+//@   after every-tag-of-the-line-is-visited: k == len(tags)
 //@ func (interp *Interpreter) buildOk(ctx, name, src) (ok, err)
 //@   props C17
 //@   opt safety = off
